@@ -15,6 +15,7 @@ import (
 	"runtime"
 	"sort"
 	"strconv"
+	"strings"
 	"sync"
 	"sync/atomic"
 )
@@ -81,6 +82,24 @@ func Order(site string, n int) []int {
 			panic("simrt: two goroutines want the service-loop name " + name)
 		}
 		s.byGoid[id] = name
+	} else if len(name) > 0 && name[0] == '~' {
+		// a service goroutine registered at its start: from its first select on it goes by
+		// the service-loop name
+		prefix := name[1:]
+		if i := strings.IndexByte(prefix, '~'); i >= 0 {
+			prefix = prefix[:i]
+		}
+		nn := prefix + "." + site
+		if _, dup := s.parked[nn]; dup {
+			nn = name[1:] // two loops at one site: keep the unique start name
+		}
+		if old := s.parked[name]; old != nil {
+			delete(s.parked, name)
+			old.Name = nn
+			s.parked[nn] = old
+		}
+		s.byGoid[id] = nn
+		name = nn
 	}
 	p := s.parked[name]
 	if p == nil {
@@ -270,8 +289,18 @@ func NextGoID(site string) int {
 	id := goid()
 	s.mu.Lock()
 	defer s.mu.Unlock()
-	if _, known := s.byGoid[id]; !known || s.NoYield {
+	if s.NoYield {
 		return 0
+	}
+	if _, known := s.byGoid[id]; !known {
+		if s.adopt == "" {
+			return 0
+		}
+		// started while an instance boots (adoption window): a service goroutine of the code
+		// under test. It is known to the scheduler from its first statement on, but does not
+		// wait for a release there (the boot has to get all of them to their loops); negative id.
+		s.goSeq++
+		return -s.goSeq
 	}
 	s.goSeq++
 	return s.goSeq
@@ -284,6 +313,17 @@ func YieldStart(site string, gid int) {
 		return
 	}
 	s.mu.Lock()
+	if gid < 0 {
+		prefix := s.adopt
+		if prefix == "" {
+			prefix = "svc"
+		}
+		// provisional name; a goroutine that reaches a rewritten select is renamed to
+		// prefix.site-of-the-select there (the name the harness knows service loops by)
+		s.byGoid[goid()] = "~" + prefix + "~" + site + "#" + strconv.Itoa(-gid)
+		s.mu.Unlock()
+		return
+	}
 	name := site + "#" + strconv.Itoa(gid)
 	s.byGoid[goid()] = name
 	p := &Parked{Name: name, release: make(chan []int), Site: site, N: 1, Yield: true}
